@@ -675,7 +675,7 @@ def finish(prop, tier, seed, results, meta, wall, extra_coverage=None, extra_err
         for k, v in r["covers"].items():
             covers["%s:%s" % (hname, k)] += v
         want_labels = (meta.get("expected_covers") or {}).get(hname) or []
-        if want_labels and not any(r["covers"].get(lab) for lab in want_labels):
+        if want_labels and not any(r["covers"].values()):
             coverless.append({"harness": hname, "params": r["params"]})
         functions.update(r["functions"])
         on_demand.update(r.get("on_demand", []))
